@@ -20,12 +20,32 @@ Record case := {
   q_inputs : env;
   q_internal : shape_dict;
   q_gens : list (list nat);    (* generations as positions in q_funcs, in submission order *)
-  q_runs : list runcfg
+  q_runs : list runcfg;
+  q_none : list str            (* names of the functions that return a real None for some calls *)
 }.
+
+(* the structural user function of the harness; a function listed in q_none returns None (canonical string "None")
+   instead of a scalar value whose text has an even sum of character codes *)
+Definition code_parity (x : str) : bool :=
+  N.even (fold_left (fun acc ch => (acc + N_of_ascii ch)%N) x 0%N).
+Definition none_value (ret : list nat) (base : str) : val :=
+  match ret with
+  | [] => if code_parity base then VS (s "None") else VS base
+  | _ => sym_value ret base
+  end.
+Definition case_body (c : case) (f : mfunc) (kw : env) : result (list val) :=
+  if mem_str (fname f) (q_none c) then
+    let app := sym_app f kw in
+    match fouts f with
+    | [_] => Ok [none_value (fret f) app]
+    | os => Ok (map (fun o => none_value (fret f) (s "out(" ++ o ++ s ";" ++ app ++ s ")")) os)
+    end
+  else sym_body f kw.
 
 (* one observed run, before interning *)
 Record robs := {
-  ro_outs : list (option (val * val));     (* per output of q_funcs: Result.output, stored value *)
+  ro_outs : list (option (val * val * val)); (* per output of q_funcs: Result.output, stored value, value
+                                                re-opened from the run folder after the run (= stored) *)
   ro_log : list str;                       (* "f(p=<canon>,...)" per invocation *)
   ro_dumps : list Z                        (* dump_code (position of the output, external key, dumped while a task ran) *)
 }.
@@ -110,13 +130,13 @@ Definition gens_valid (c : case) : bool :=
   sched_ok (length (q_funcs c)) (concat (q_gens c)) && layering_ok (gens_of c).
 
 Definition run_one (c : case) (r : runcfg) : result robs :=
-  match par_run sym_body (dis_of c r) (gens_of c) (q_inputs c) (q_internal c) (r_pis r) with
+  match par_run (case_body c) (dis_of c r) (gens_of c) (q_inputs c) (q_internal c) (r_pis r) with
   | Err e => Err e
   | Ok st =>
       let log := map (fun cl => sym_app (c_fn cl) (c_kw cl)) (p_log st) in
       let dumps := map (fun ev => dump_code (out_pos c (dv_out ev)) (dv_key ev) (dv_worker ev)) (p_trace st) in
       Ok {| ro_outs := map (fun o => match find (fun x => str_eqb (fst (fst x)) o) (p_out st) with
-                                     | Some x => Some (snd (fst x), snd x) | None => None end) (out_names c);
+                                     | Some x => Some (snd (fst x), snd x, snd x) | None => None end) (out_names c);
             ro_log := match r_mode r with
                       | 0 => log
                       | _ => canon_runs (fun x => gen_rank c (fname_of_line x)) str_leb log
@@ -129,7 +149,7 @@ Definition run_one (c : case) (r : runcfg) : result robs :=
   end.
 
 (* ---------- interning ---------- *)
-Definition outs_t := list (option (val * val)).
+Definition outs_t := list (option (val * val * val)).
 Definition val_eqb (a b : val) : bool :=
   match a, b with
   | VS x, VS y => str_eqb x y
@@ -137,7 +157,9 @@ Definition val_eqb (a b : val) : bool :=
   | _, _ => false
   end.
 Definition outs_eqb : outs_t -> outs_t -> bool :=
-  list_eqb (opt_eqb (fun a b => val_eqb (fst a) (fst b) && val_eqb (snd a) (snd b))).
+  list_eqb (opt_eqb (fun a b : val * val * val =>
+                       val_eqb (fst (fst a)) (fst (fst b)) && val_eqb (snd (fst a)) (snd (fst b))
+                       && val_eqb (snd a) (snd b))).
 
 (* the distinct output blocks in order of first appearance (all runs of a case should produce the same one) *)
 Definition distinct_outs (rs : list (result robs)) : list outs_t :=
@@ -149,7 +171,9 @@ Fixpoint outs_index (x : outs_t) (l : list outs_t) : nat :=
 
 Definition val_strings (v : val) : list str := match v with VS x => [x] | VA a => dat a end.
 Definition outs_strings (o : outs_t) : list str :=
-  flat_map (fun ov => match ov with Some (a, b) => val_strings a ++ val_strings b | None => [] end) o.
+  flat_map (fun ov => match ov with
+                      | Some (a, b, r) => val_strings a ++ val_strings b ++ val_strings r
+                      | None => [] end) o.
 Definition make_table (blocks : list outs_t) (l : list (result robs)) : list str :=
   fold_left (fun t x => insert_dedup x t)
             (flat_map outs_strings blocks
@@ -165,7 +189,7 @@ Definition enc_val (t : list str) (v : val) : sx :=
   end.
 Definition enc_outs (t : list str) (o : outs_t) : sx :=
   SL (map (fun ov => match ov with
-                     | Some (a, b) => SL [enc_val t a; enc_val t b]
+                     | Some (a, b, r) => SL [enc_val t a; enc_val t b; enc_val t r]
                      | None => SL [] end) o).
 Definition enc_run (t : list str) (blocks : list outs_t) (r : result robs) : sx :=
   match r with
@@ -201,18 +225,19 @@ Definition dec_val (t : list str) (x : sx) : option val :=
       end
   | _ => None
   end.
-Definition dec_outs (t : list str) (x : sx) : option (list (option (val * val))) :=
+Definition dec_outs (t : list str) (x : sx) : option outs_t :=
   match x with
   | SL outs =>
       all_some (map (fun o => match o with
-                              | SL [a; b] => match dec_val t a, dec_val t b with
-                                             | Some a', Some b' => Some (Some (a', b')) | _, _ => None end
+                              | SL [a; b; r] => match dec_val t a, dec_val t b, dec_val t r with
+                                                | Some a', Some b', Some r' => Some (Some (a', b', r'))
+                                                | _, _, _ => None end
                               | SL [] => Some None
                               | _ => None end) outs)
   | _ => None
   end.
 (* (outputs, log) of an ok run *)
-Definition dec_run (t : list str) (blocks : list sx) (x : sx) : option (list (option (val * val)) * list str) :=
+Definition dec_run (t : list str) (blocks : list sx) (x : sx) : option (outs_t * list str) :=
   match x with
   | SL [SI 1%Z; b; SL log; _] =>
       match sx_nat b with
@@ -230,9 +255,9 @@ Definition dec_run (t : list str) (blocks : list sx) (x : sx) : option (list (op
 
 (* ---------- the executable statement ---------- *)
 (* what the MapSpec notation says: the arrays ... *)
-Definition expected_outs (c : case) : result (list (option (val * val))) :=
-  do d <- denote_run sym_body (q_funcs c) (q_inputs c) (q_internal c);
-  Ok (map (fun x => Some (snd x, snd x)) (d_out d)).
+Definition expected_outs (c : case) : result outs_t :=
+  do d <- denote_run (case_body c) (q_funcs c) (q_inputs c) (q_internal c);
+  Ok (map (fun x => Some (snd x, snd x, snd x)) (d_out d)).
 
 (* ... and the invocations: one per external index of a mapped function (arguments sliced as the notation says),
    one for a function without MapSpec inputs *)
@@ -250,7 +275,7 @@ Definition calls_of_func (st : den_state) (user : shape_dict) (f : mfunc) : resu
 Definition expected_calls (c : case) : result (list str) :=
   do r <- fold_left (fun acc f => do a <- acc;
                                  do cs <- calls_of_func (fst a) (q_internal c) f;
-                                 do st' <- denote_func sym_body (q_internal c) (fst a) f;
+                                 do st' <- denote_func (case_body c) (q_internal c) (fst a) f;
                                  Ok (st', snd a ++ cs))
                     (q_funcs c)
                     (Ok ({| d_env := q_inputs c; d_shapes := init_shapes (q_inputs c); d_out := [] |}, []));
@@ -302,7 +327,7 @@ Definition barrier_ok (funcs : list mfunc) (want : list str) (log : list str) : 
   barrier_go (producers funcs) (named want) [] (named log).
 
 (* The property: a valid request is answered, whatever the executor / storage / schedule (i.e. in every run of the
-   case), with exactly the denoted arrays (returned and stored); the log of invocations is exactly the expected
+   case), with exactly the denoted arrays (returned, stored, and re-opened from the run folder afterwards); the log of invocations is exactly the expected
    multiset (each (function, index) once); no invocation stands before an invocation whose value it consumes.
    The dump list is not judged (it belongs to the correspondence only). *)
 Definition spec_ok (c : case) (o : sx) : bool :=
